@@ -210,6 +210,10 @@ theorem param_lookup_own (rows : List Row) (k : Nat) (hk : k < rows.length) :
 
 /-! ### locations -/
 
+private theorem takeExact_append {α : Type} : ∀ (m ds : List α), takeExact m.length (m ++ ds) = some (m, ds)
+  | [], ds => rfl
+  | x :: m, ds => by simp [takeExact, takeExact_append m ds]
+
 /-- **location packing round trip**: for every sequence of locators of the four kinds (none, free coordinates,
 grid indices, multi-index of any length) `_unpackLocationsV2` returns what `_packLocationsV3` was given -/
 theorem unpack_pack_locations : ∀ (locs : List Loc), unpackLocs (packLocs locs).1 (packLocs locs).2 = some locs := by
@@ -222,8 +226,7 @@ theorem unpack_pack_locations : ∀ (locs : List Loc), unpackLocs (packLocs locs
     | coord x y z => simp only [packLocs, unpackLocs, ih, Option.map_some]
     | index i j k => simp only [packLocs, unpackLocs, ih, Option.map_some]
     | multi m =>
-      simp only [packLocs, unpackLocs, List.length_append, Nat.le_add_right, if_true, List.drop_left', List.take_left', ih,
-        Option.map_some]
+      simp only [packLocs, unpackLocs, takeExact_append, ih, Option.map_some]
 
 /-! ### grid de-duplication -/
 
@@ -604,6 +607,332 @@ theorem save_load_param_own (t : Tree) (v : Label → Pack.Entry) (k : Nat) (hk 
   unfold column
   rw [List.getElem?_map, List.getElem?_map, hown]
   rfl
+
+
+/-! ## several statepoints in one file (statepoint independence) -/
+
+section File
+variable {P : Type}
+
+private theorem get_append_single (f : File P) (k name : String) (s : Snap P) :
+    File.get (f ++ [(k, s)]) name = match File.get f name with
+      | some x => some x
+      | none => if k = name then some s else none := by
+  induction f with
+  | nil => simp [File.get]
+  | cons h t ih =>
+    obtain ⟨k', s'⟩ := h
+    simp only [List.cons_append, File.get]
+    by_cases hk : k' = name
+    · simp [hk]
+    · simp only [hk, if_false]; exact ih
+
+/-- **an accepted write is what a load of that address returns** -/
+theorem get_write_same (f f' : File P) (k : String) (s : Snap P) (h : f.write k s = some f') : f'.get k = some s := by
+  unfold File.write at h
+  cases hg : f.get k with
+  | some x => simp [hg] at h
+  | none =>
+    simp only [hg, Option.some.injEq] at h
+    subst h
+    rw [get_append_single, hg]; simp
+
+/-- **statepoint independence**: writing statepoint `k` never changes what any OTHER address `k'` holds —
+layout (locators, grid keys, materials, temperatures) and parameters alike -/
+theorem get_write_other (f f' : File P) (k k' : String) (s : Snap P) (h : f.write k s = some f') (hne : k' ≠ k) :
+    f'.get k' = f.get k' := by
+  unfold File.write at h
+  cases hg : f.get k with
+  | some x => simp [hg] at h
+  | none =>
+    simp only [hg, Option.some.injEq] at h
+    subst h
+    rw [get_append_single]
+    cases f.get k' with
+    | some x => rfl
+    | none => simp only; rw [if_neg (fun e => hne e.symm)]
+
+/-- **a write to an occupied address is refused** (and, being refused, changes nothing: `write` returns no file) -/
+theorem write_occupied (f : File P) (k : String) (s s0 : Snap P) (h : f.get k = some s0) : f.write k s = none := by
+  simp [File.write, h]
+
+/-- a write to a free address is accepted -/
+theorem write_free (f : File P) (k : String) (s : Snap P) (h : f.get k = none) : ∃ f', f.write k s = some f' := by
+  simp [File.write, h]
+
+private theorem writeAll_inv : ∀ (h : List (String × Snap P)) (f f' : File P), f.writeAll h = some f' →
+    (∀ k s, f.get k = some s → f'.get k = some s) ∧ (∀ p ∈ h, f'.get p.1 = some p.2)
+  | [], f, f', hw => by
+    simp only [File.writeAll, Option.some.injEq] at hw; subst hw
+    exact ⟨fun _ _ h => h, by simp⟩
+  | (k, s) :: r, f, f', hw => by
+    simp only [File.writeAll] at hw
+    cases hw1 : f.write k s with
+    | none => simp [hw1] at hw
+    | some f1 =>
+      simp only [hw1] at hw
+      obtain ⟨keep, got⟩ := writeAll_inv r f1 f' hw
+      have hfree : f.get k = none := by
+        cases hg : f.get k with
+        | none => rfl
+        | some x => simp [File.write, hg] at hw1
+      refine ⟨?_, ?_⟩
+      · intro k' s' hk'
+        apply keep
+        have hne : k' ≠ k := by intro e; subst e; rw [hfree] at hk'; cases hk'
+        rw [get_write_other f f1 k k' s hw1 hne]; exact hk'
+      · intro p hp
+        rcases List.mem_cons.mp hp with rfl | hp'
+        · exact keep _ _ (get_write_same f f1 _ _ hw1)
+        · exact got p hp'
+
+/-- **every statepoint of a write history loads back as it was written**, however many statepoints follow it and
+whatever they contain: for all histories of accepted writes into a new file and every entry `(k, s)` of the history,
+the final file holds exactly `s` at `k`. (3+ statepoints, tree changes in between, and a loaded reactor saved as a
+further statepoint are all instances.) -/
+theorem history_loads (h : List (String × Snap P)) (f : File P) (hw : File.writeAll [] h = some f) :
+    ∀ p ∈ h, f.get p.1 = some p.2 :=
+  (writeAll_inv h [] f hw).2
+
+/-- what was in the file before a history of writes is still there afterwards, unchanged -/
+theorem history_keeps (h : List (String × Snap P)) (f f' : File P) (hw : f.writeAll h = some f') (k : String) (s : Snap P)
+    (hk : f.get k = some s) : f'.get k = some s :=
+  (writeAll_inv h f f' hw).1 k s hk
+
+/-- with refused writes skipped instead of ending the run: the FIRST write to every address is the one that loads -/
+theorem writeSkip_keeps : ∀ (h : List (String × Snap P)) (f : File P) (k : String) (s : Snap P),
+    f.get k = some s → (f.writeSkip h).get k = some s
+  | [], _, _, _, hk => hk
+  | (k1, s1) :: r, f, k, s, hk => by
+    simp only [File.writeSkip]
+    cases hw : f.write k1 s1 with
+    | none => exact writeSkip_keeps r f k s hk
+    | some f1 =>
+      apply writeSkip_keeps r f1 k s
+      have hne : k ≠ k1 := by
+        intro e; subst e
+        simp [File.write, hk] at hw
+      rw [get_write_other f f1 k1 k s1 hw hne]; exact hk
+
+/-- `Database.writeToDB` of tree `t` (children sorted by `_createLayout`) with its layout-borne extras and parameters -/
+def saveSP (f : File P) (name : String) (t : Tree) (ex : List Extra) (p : P) : Option (File P) :=
+  f.write name ⟨saveRows lt t, ex, p⟩
+
+/-- `Database.load(cycle, node, statePointName)`: the group's layout composed and sorted, its extras and parameters -/
+def loadSP (f : File P) (name : String) : Option (Tree × List Extra × P) :=
+  match f.get name with
+  | none => none
+  | some s => (loadTree lt s.rows).map (fun t => (t, s.extras, s.params))
+
+/-- **C04-b: each statepoint of a multi-statepoint file loads to the state at the time it was written.** For every
+history of accepted saves (any trees — same tree with moved pins / other grids / other materials / temperatures, or
+changed trees —, any extras, any parameters) into one new file, loading any of its addresses gives that save's tree
+with children sorted (`load_save_sorted`), that save's materials/temperatures and that save's parameters:
+nothing of an earlier or later statepoint shows through. -/
+theorem multi_statepoint_roundtrip (hasym : ∀ a b, lt a b = true → lt b a = false)
+    (h : List (String × Tree × List Extra × P)) (f : File P)
+    (hw : File.writeAll [] (h.map (fun q => (q.1, (⟨saveRows lt q.2.1, q.2.2.1, q.2.2.2⟩ : Snap P)))) = some f) :
+    ∀ q ∈ h, loadSP lt f q.1 = some (sortT lt q.2.1, q.2.2.1, q.2.2.2) := by
+  intro q hq
+  have := history_loads _ f hw (q.1, ⟨saveRows lt q.2.1, q.2.2.1, q.2.2.2⟩) (List.mem_map.mpr ⟨q, hq, rfl⟩)
+  simp only at this
+  unfold loadSP
+  rw [this]
+  simp only [load_save_sorted lt hasym, Option.map_some]
+
+end File
+
+/-- non-vacuity: three statepoints of one tree whose pin locations / grid key / material / temperatures differ; each
+loads back its own; a second write to an occupied address is refused -/
+private def spA : Snap Nat := ⟨flattenT exTree, [(1, 20, 450)], 7⟩
+private def spB : Snap Nat :=
+  ⟨flattenT (.node ⟨0, 0, .none, none⟩ (.cons (.node ⟨3, 6, .multi [(1, 0, 0), (0, 0, 0)], some 8⟩ .nil) .nil)), [(2, 25, 450)], 9⟩
+private def spFile : Option (File Nat) := File.writeAll [] [("c00n00", spA), ("c00n01", spB), ("c00n01EOL", spA)]
+example : (spFile.bind (·.get "c00n00")).map (·.params) = some 7 := by decide
+example : (spFile.bind (·.get "c00n01")).map (·.extras) = some [(2, 25, 450)] := by decide
+example : (spFile.bind (·.get "c00n01")).map (fun s => s.rows.map (·.1.loc)) = some [.none, .multi [(1, 0, 0), (0, 0, 0)]] := by decide
+example : (spFile.bind (·.get "c00n01EOL")).map (·.params) = some 7 := by decide
+example : (File.writeAll ([] : File Nat) [("c00n00", spA), ("c00n00", spB)]).isNone = true := by decide
+example : groupName 0 1 "" = "c00n01" ∧ groupName 3 12 "EOL" = "c03n12EOL" ∧ groupName 100 7 "" = "c100n07" := by decide
+
+/-! ## the layout as the columns of the file -/
+
+private theorem zipRows_maps : ∀ (rows : List Row),
+    zipRows (rows.map (·.1.ty)) (rows.map (·.1.serial)) (rows.map (·.2)) (rows.map (·.1.loc)) (rows.map (·.1.grid)) = rows
+  | [] => rfl
+  | (lab, n) :: r => by
+    simp only [List.map_cons, zipRows, zipRows_maps r]
+
+private theorem lookupGrids_own (tab : List Nat) : ∀ (keys : List (Option Nat)), (∀ g, some g ∈ keys → g ∈ tab) →
+    lookupGrids tab (keys.map (fun k => k.bind (idxOf tab))) = some keys
+  | [], _ => rfl
+  | none :: r, h => by
+    simp only [List.map_cons, Option.bind_none, lookupGrids]
+    rw [lookupGrids_own tab r (fun g hg => h g (by simp [hg]))]; rfl
+  | some g :: r, h => by
+    obtain ⟨i, hi⟩ := idxOf_of_mem tab g (h g (by simp))
+    simp only [List.map_cons, Option.bind_some, hi, lookupGrids, idxOf_get tab g i hi]
+    rw [lookupGrids_own tab r (fun g' hg => h g' (by simp [hg]))]; rfl
+
+/-- **the columns of the file give the rows back**: for every list of rows (every forest, every sequence of locators of
+the four kinds, every assignment of grids incl. equal grids shared by many objects and objects without grid)
+`_readLayout`/`_initComps` on what `_createLayout`/`writeToDB` stored returns exactly the rows: class, serial number,
+child count, locator and the object's OWN grid parameters -/
+theorem rows_cols_roundtrip (rows : List Row) : rowsOfCols (colsOfRows rows) = some rows := by
+  unfold rowsOfCols colsOfRows
+  simp only [unpack_pack_locations]
+  unfold gridIndex
+  simp only
+  rw [lookupGrids_own _ _ (fun g hg => mem_gridTable _ [] g (Or.inr hg))]
+  simp only [List.map_map]
+  exact congrArg some (zipRows_maps rows)
+
+/-- `Database.writeToDB` / `Database.load` at the level of the stored columns -/
+def saveCols (t : Tree) : Cols := colsOfRows (saveRows lt t)
+def loadCols (c : Cols) : Option Tree := (rowsOfCols c).bind (loadTree lt)
+
+/-- **C04 layout round trip on the file's columns**: for every tree, what `load` builds from the columns `writeToDB`
+stored is the saved tree with every child list sorted — types, serial numbers, child order, locators (all four
+kinds) and grids (through the de-duplicated grid table) -/
+theorem cols_roundtrip (hasym : ∀ a b, lt a b = true → lt b a = false) (t : Tree) :
+    loadCols lt (saveCols lt t) = some (sortT lt t) := by
+  unfold loadCols saveCols
+  rw [rows_cols_roundtrip]
+  simp only [Option.bind_some]
+  exact load_save_sorted lt hasym t
+
+example : (loadCols armiLt (saveCols armiLt exTree)).map flattenT = some (flattenT exTree) := by decide
+/-- a grid index outside the table / exhausted location data are refused, not defaulted -/
+example : rowsOfCols { colsOfRows (flattenT exTree) with gridTab := [7] } = none := by decide
+example : rowsOfCols { colsOfRows (flattenT exTree) with locData := [(0, 0, 0)] } = none := by decide
+
+/-- the de-duplicated grid table holds no key twice -/
+theorem gridTable_nodup : ∀ (keys : List (Option Nat)) (acc : List Nat), acc.Nodup → (gridTable keys acc).Nodup
+  | [], acc, h => by simpa [gridTable] using h
+  | none :: r, acc, h => by simp only [gridTable]; exact gridTable_nodup r acc h
+  | some g :: r, acc, h => by
+    simp only [gridTable]
+    split
+    · exact gridTable_nodup r acc h
+    · rename_i hc
+      apply gridTable_nodup r
+      rw [List.nodup_append]
+      refine ⟨h, by simp, ?_⟩
+      intro a ha b hb
+      simp at hb; subst hb
+      intro e; subst e
+      exact hc (by simpa using ha)
+
+/-- … and nothing but grids of the objects -/
+theorem gridTable_sub : ∀ (keys : List (Option Nat)) (acc : List Nat) (g : Nat),
+    g ∈ gridTable keys acc → g ∈ acc ∨ some g ∈ keys
+  | [], acc, g, h => by simpa [gridTable] using h
+  | none :: r, acc, g, h => by
+    simp only [gridTable] at h
+    rcases gridTable_sub r acc g h with h | h
+    · exact Or.inl h
+    · exact Or.inr (by simp [h])
+  | some g' :: r, acc, g, h => by
+    simp only [gridTable] at h
+    split at h
+    · rcases gridTable_sub r acc g h with h | h
+      · exact Or.inl h
+      · exact Or.inr (by simp [h])
+    · rcases gridTable_sub r _ g h with h | h
+      · simp at h
+        rcases h with h | rfl
+        · exact Or.inl h
+        · exact Or.inr (by simp)
+      · exact Or.inr (by simp [h])
+
+/-! ## `Component.__lt__` is asymmetric too -/
+
+/-- `Component.__lt__` (outer diameter, then inner diameter) is asymmetric: the child-order theorems
+(`load_save_sorted`, `load_save_id_iff`, `cols_roundtrip`, `multi_statepoint_roundtrip`) hold for blocks' component
+lists as they do for the locator order -/
+theorem compLt_asymm (a b : Rat × Rat) (h : compLt a b = true) : compLt b a = false := by
+  unfold compLt at *
+  by_cases e : a.1 = b.1
+  · simp only [e, if_true, decide_eq_true_eq] at h
+    simp only [e, if_true, decide_eq_false_iff_not]
+    exact Rat.not_lt.mpr (Rat.le_of_lt h)
+  · have e' : ¬ b.1 = a.1 := fun x => e x.symm
+    simp only [e, if_false, decide_eq_true_eq] at h
+    simp only [e', if_false, decide_eq_false_iff_not]
+    exact Rat.not_lt.mpr (Rat.le_of_lt h)
+
+example : sortIdxComp [(3, 1), (2, 0), (3, 0), (2, 0)] = [1, 3, 2, 0] := by decide
+
+/-! ## blueprint-assigned parameters on load (C04-a) -/
+
+private theorem groupAppend_names (g : List (GKey × List Nat)) (t i : Nat)
+    (hg : ∀ p ∈ g, ∃ n, p.1 = GKey.name n) : ∀ p ∈ groupAppend g (.name t) i, ∃ n, p.1 = GKey.name n := by
+  induction g with
+  | nil => intro p hp; simp [groupAppend] at hp; exact ⟨t, by simp [hp]⟩
+  | cons h r ih =>
+    obtain ⟨k', l⟩ := h
+    intro p hp
+    simp only [groupAppend] at hp
+    by_cases hk : k' = GKey.name t
+    · simp only [hk, if_true, List.mem_cons] at hp
+      rcases hp with rfl | hp
+      · exact ⟨t, rfl⟩
+      · exact hg p (by simp [hp])
+    · simp only [hk, if_false, List.mem_cons] at hp
+      rcases hp with rfl | hp
+      · exact hg _ (by simp)
+      · exact ih (fun q hq => hg q (by simp [hq])) p hp
+
+private theorem initGroupsGo_names : ∀ (tys : List Nat) (g : List (GKey × List Nat)) (i : Nat),
+    (∀ p ∈ g, ∃ n, p.1 = GKey.name n) → ∀ p ∈ initGroupsGo g i tys, ∃ n, p.1 = GKey.name n
+  | [], g, _, hg => by simpa [initGroupsGo] using hg
+  | t :: r, g, i, hg => by
+    simp only [initGroupsGo]
+    exact initGroupsGo_names r _ (i + 1) (groupAppend_names g t i hg)
+
+private theorem lookupD_cls (g : List (GKey × List Nat)) (c : Nat) (hg : ∀ p ∈ g, ∃ n, p.1 = GKey.name n) :
+    lookupD g (.cls c) = [] := by
+  induction g with
+  | nil => rfl
+  | cons h r ih =>
+    obtain ⟨k', l⟩ := h
+    obtain ⟨n, hn⟩ := hg (k', l) (by simp)
+    simp only at hn
+    subst hn
+    simp only [lookupD]
+    have : ¬ (GKey.name n = GKey.cls c) := by intro e; cases e
+    simp only [this, if_false]
+    exact ih (fun q hq => hg q (by simp [hq]))
+
+/-- **`_assignBlueprintsParams` assigns nothing on load**: it asks `groupedComps` for the class objects `Block` /
+`Assembly`, while `_initComps` keyed the dictionary by class-name strings; the `defaultdict` answers with empty lists.
+Hence for every layout, every blueprint and every parameter column the values `_readParams` assigned stay as they are. -/
+theorem assignBlueprints_noop {V : Type} (tys classes : List Nat) (bp : Nat → Option V) (vals : List V) :
+    assignBlueprints (initGroups tys) classes bp vals = vals := by
+  unfold assignBlueprints
+  have hn : ∀ p ∈ initGroups tys, ∃ n, p.1 = GKey.name n := initGroupsGo_names tys [] 0 (by simp)
+  induction classes generalizing vals with
+  | nil => rfl
+  | cons c r ih =>
+    simp only [List.foldl_cons]
+    rw [lookupD_cls _ c hn]
+    simpa using ih vals
+
+/-- **C04-a: the loaded reactor holds the SAVED value, not the blueprint value.** Object `i`'s value of a parameter
+after `load` (constructor default → `_readParams` → `_assignBlueprintsParams`) is the stored one whenever the class
+group holds a dataset for the parameter — whatever the blueprint design says (`bp`), also when the stored value differs
+from both the default and the blueprint value. (No dataset — all-None column, NoDefault in the column — gives the
+constructor default: the known findings `assigned-none-on-every-object…` / `parameter-without-default…`.) -/
+theorem load_param_saved_not_blueprint {V : Type} (tys classes : List Nat) (bp : Nat → Option V) (dflt : V)
+    (stored : List (Option V)) (i : Nat) (s : V) (hs : stored[i]? = some (some s)) :
+    (assignBlueprints (initGroups tys) classes bp (stored.map (readParam dflt)))[i]? = some s := by
+  rw [assignBlueprints_noop]
+  simp [List.getElem?_map, hs, readParam]
+
+/-- the other half, why the key mismatch matters: had the lookup hit (the class's objects filed under the key asked
+for) the blueprint value WOULD replace a saved value that differs from it -/
+example : assignBlueprints [(GKey.cls 0, [0, 1])] [0] (fun i => if i = 1 then some 5 else none) [7, 8] = [7, 5] := by decide
+example : assignBlueprints (initGroups [0, 0]) [0] (fun i => if i = 1 then some 5 else none) [7, 8] = [7, 8] := by decide
 
 
 end ArmiVerif.Layout
